@@ -53,6 +53,7 @@ impl Clone for Thread {
         if let (Some((epoch, target)), Some((s, me))) = (self.sim, sim::ctx()) {
             if s.epoch == epoch {
                 let addr = self as *const Self as usize;
+                s.pre_touch(me, addr);
                 s.op(me, |st| {
                     st.tick(me);
                     st.log(me, Ev::HandleClone { addr, target });
